@@ -1,6 +1,65 @@
-(* Props/C03.v -- placeholder until the theorems are stated; see Pwl/Cache.v *)
-From AT Require Import Num Vec Aff Farkas FM Equiv PTree Cache.
-Theorem C03_mirror_points_sound : forall nus eps rs p, Forall (fun nu => 0 < nu) nus -> 0 <= eps -> length nus = length rs ->
-  Forall (fun nr => accept_row (fst nr) eps (snd nr) p) (combine nus rs) -> in_rows rs p.
-Proof. exact mirror_points_sound. Qed.
-Print Assumptions C03_mirror_points_sound.
+(* Props/C03.v -- C03: pruning never changes the represented (partial) function.  Property theorems only.
+   Models: Pwl/Elim.v (infeasible_elimination as coded, after the D11 repair), Pwl/CPrune.v (generic composition
+   with pruning: compose::<true> and the tree operators), both parametric in the LP / mirror oracles.
+   For a fixed input x the hypotheses are exactly what the property grants:
+     osound o x      : no Infeasible answer is given for a query polytope that contains x
+     marks_* x ..    : no cached Infeasible mark sits on a node whose closed path polytope contains x
+   Nothing is assumed about Error / Unbounded / Optimal answers or about the mirror heuristic.  For an oracle that
+   is sound only up to thin regions the conclusions hold for every x outside the polytopes it declared infeasible. *)
+From AT Require Import Num Vec Aff PTree Cells Abs Cache Elim ElimEval ElimCache ElimEff CPrune CPruneEval Ops ElimExample.
+
+(* infeasible_elimination: defined exactly where it was defined, with the same value *)
+Theorem C03_elim_preserves : forall o tol t x, osound o x -> marks_kids x [] t ->
+  cev (fst (elim o tol t)) x = cev t x.
+Proof. exact elim_cev. Qed.
+(* the general form, at any node with its path polytope (what the induction carries) *)
+Theorem C03_elim_sub_preserves : forall o tol x, osound o x ->
+  forall t isroot q st k, marks_kids x q t -> in_rows q x ->
+  cev (fst (elim_sub o tol isroot q st t k)) x = cev t x.
+Proof. exact elim_sub_cev. Qed.
+(* cev (evaluation on the arena-shaped tree) is evaluation of the inductive tree the runner compares *)
+Theorem C03_cev_is_eval : forall t x, cbin t -> cev t x = eval (erase t) x.
+Proof. exact cev_erase. Qed.
+
+(* composition with pruning = composition without pruning *)
+Theorem C03_compose_prune : forall o tol t L x, osound o x -> bin2 L -> cbin t -> terms_ok comp_schema t ->
+  marks_ok x [] t -> cev (fst (compose_prune o tol t L)) x = eval (compose (erase t) L) x.
+Proof. exact compose_prune_eval. Qed.
+(* the tree operators (which prune on the fly) = the point-wise lifting *)
+Theorem C03_ops_prune : forall o tol fo t L x, osound o x -> bin2 L -> cbin t -> marks_ok x [] t ->
+  cev (fst (cprune o tol (op_schema fo) L t [] k0)) x = eval (top fo (erase t) L) x.
+Proof. exact top_prune_eval. Qed.
+(* any schema that keeps decisions one-row, at any node *)
+Theorem C03_generic_prune : forall o tol s L x, osound o x -> bin2 L ->
+  forall t q k, cbin t -> terms_ok s t -> marks_ok x q t -> in_rows q x ->
+  cev (fst (cprune o tol s L t q k)) x = eval (lift s (erase t) L) x.
+Proof. exact cprune_cev. Qed.
+
+(* only paths that no input can take disappear: an Infeasible verdict is only ever derived from an Infeasible
+   answer of the oracle for the node's closed path polytope (or was cached) *)
+Theorem C03_infeasible_only_from_oracle : forall o tol stP q h c k s k' fr sk x,
+  visit o tol stP q h c k = (s, k', fr, sk) -> osound o x -> (c_state c = Infeas -> ~ in_rows q x) ->
+  is_infeas s = true -> ~ in_rows q x.
+Proof. exact visit_infeas. Qed.
+Theorem C03_edge_dropped_only_if_infeasible : forall o tol top st q ql k k' x,
+  explore o tol top st ql k = (false, k') -> osound o x -> (st = Infeas -> ~ in_rows q x) -> in_rows q x ->
+  ~ in_rows ql x.
+Proof. exact explore_false. Qed.
+
+(* non-vacuity: a concrete tree and oracle meeting every hypothesis for every x, on which elimination removes an
+   infeasible terminal and replaces a decision by its remaining branch *)
+Example C03_nonvacuous :
+  (forall x, osound ex_o x /\ marks_kids x [] ex_t) /\
+  elim ex_o 0 ex_t = (ex_r, {| k_lp := 4; k_mir := 0 |}) /\
+  (forall x, cev ex_r x = cev ex_t x).
+Proof. exact ex_c03. Qed.
+
+Print Assumptions C03_elim_preserves.
+Print Assumptions C03_elim_sub_preserves.
+Print Assumptions C03_cev_is_eval.
+Print Assumptions C03_compose_prune.
+Print Assumptions C03_ops_prune.
+Print Assumptions C03_generic_prune.
+Print Assumptions C03_infeasible_only_from_oracle.
+Print Assumptions C03_edge_dropped_only_if_infeasible.
+Print Assumptions C03_nonvacuous.
